@@ -489,7 +489,9 @@ func runC17(t *testing.T, ch *sim.Choices, tier string) (o Outcome) {
 			if pos[dn] < pos[d.Name] {
 				continue
 			}
-			if f, ok := fwd[dn]; ok && in.Decls[j].Kind == "type" && f < pos[d.Name] && cyc == "type" {
+			if f, ok := fwd[dn]; ok && in.Decls[j].Kind == "type" && d.Kind == "type" && f < pos[d.Name] && cyc == "type" {
+				// only a type may make do with the forward declaration of a type it mentions:
+				// every other declaration waits for the full declaration
 				continue
 			}
 			fail("order", "dependency-after-use", fmt.Sprintf("%s references %s, which is declared after it (and not forward declared before it)", d.Name, dn))
